@@ -40,8 +40,8 @@ def check(ctx):
     node = f.node
     site = fn.site_of(f)
     params = [a.arg for a in node.args.args]
-    if len(params) != 1:
-        raise AnalysisError("crc7 no longer takes exactly one argument")
+    if not params or len(params) - len(node.args.defaults) > 1:
+        raise AnalysisError("crc7 no longer takes the message as its single required argument")
     data = params[0]
     body = [s for s in node.body if not (isinstance(s, ast.Expr) and isinstance(s.value, ast.Constant))]
     loops = [s for s in ast.walk(node) if isinstance(s, (ast.For, ast.While, ast.AsyncFor))]
